@@ -62,7 +62,7 @@ kani_unit("crypto_rp64", "winter-crypto", "crypto/src/hash/rescue/rp64_256/mod.r
 ] + [
     H("rp64_hash_elements_len%d_bounded" % L, ["C11"], ["Rp64_256::hash_elements"],
       "hash_elements == the documented sponge written independently in the harness (capacity word 0 = number of residues, rate words 4..11 absorbed by addition, permutation after every 8 residues and once for a partial block, digest = words 4..7)",
-      bounded="lists of %d base-field elements (values symbolic)" % L, timeout=900)
+      bounded="lists of %d base-field elements (values symbolic; permutation double = rotation by one word plus a counter)" % L, timeout=900)
     for L in (0, 1, 7, 8, 9, 16, 17)
 ] + [
     H("rp64_hash_elements_extension_typing_bounded", ["C11"], ["Rp64_256::hash_elements", "FieldElement::slice_as_base_elements (quadratic, cubic over f64)"],
@@ -84,6 +84,13 @@ kani_unit("crypto_rp62", "winter-crypto", "crypto/src/hash/rescue/rp62_248/mod.r
       bounded="byte strings of length %d (content symbolic)" % L, timeout=900)
     for L in (0, 1, 7, 8, 56, 57, 63)
 ] + [
+    H("rp62_hash_elements_len%d_bounded" % L, ["C11"], ["Rp62_248::hash_elements"],
+      "hash_elements == the documented sponge written independently in the harness (last capacity word = number of residues, words 0..7 absorbed by addition, permutation after every 8 residues and once for a partial block, digest = words 0..3)",
+      bounded="lists of %d base-field elements (values symbolic, any representative in [0, 2M); permutation double = rotation plus length-tag word plus counter)" % L, timeout=900)
+    for L in (0, 1, 7, 8, 9, 16, 17)
+] + [
+    H("rp62_hash_elements_extension_typing_bounded", ["C11"], ["Rp62_248::hash_elements", "FieldElement::slice_as_base_elements (quadratic, cubic over f62)"],
+      "hashing 3 quadratic / 2 cubic extension elements == the documented sponge over the flattened residues", bounded="6 symbolic residues", timeout=900),
     H("rp62_merge_is_hash_of_concatenation_contract", ["C11"], ["Rp62_248::merge", "Rp62_248::hash_elements"],
       "forall digests a, b: merge([a, b]) == hash_elements(a || b)", timeout=900),
     H("rp62_merge_with_int_contract", ["C11"], ["Rp62_248::merge_with_int"],
@@ -100,6 +107,13 @@ kani_unit("crypto_rpjive", "winter-crypto", "crypto/src/hash/rescue/rp64_256_jiv
       bounded="byte strings of length %d (content symbolic)" % L, timeout=900)
     for L in (0, 1, 7, 8, 14, 28, 29, 35)
 ] + [
+    H("rpjive_hash_elements_len%d_bounded" % L, ["C11"], ["RpJive64_256::hash_elements"],
+      "hash_elements == the documented sponge with Hirose padding written independently in the harness (capacity word 0 = 1 iff the length is not a multiple of the rate 4; a partial block is completed by 1, 0, ..; digest = words 4..7)",
+      bounded="lists of %d base-field elements (values symbolic)" % L, timeout=900)
+    for L in (0, 1, 3, 4, 5, 8, 9)
+] + [
+    H("rpjive_hash_elements_extension_typing_bounded", ["C11"], ["RpJive64_256::hash_elements"],
+      "hashing 3 quadratic / 2 cubic extension elements == the documented sponge over the flattened residues", bounded="6 symbolic residues", timeout=900),
     H("rpjive_canary_must_fail", ["C11"], [], "false claim: all 3-byte strings hash equally", canary=True),
 ])
 for u_ in UNITS:
